@@ -62,6 +62,8 @@ def gen_case(r, idx):
     c["bp_dir_style"] = r.choice(["plain", "plain", "symlink", "dotted", "trailing-slash"])
     # descriptor
     c["bp_name"] = r.choice([None, "Name", "q\"uote", "日本"])
+    # the id as buildpack.toml spells it: the context carries exactly that string - or, if it is no buildpack id at all (blanks around it), nothing runs
+    c["bp_id"] = r.choice(["vp/ctx"] * 12 + ["Vp/CTX", "vp/./ctx", "vp/ctx/", " vp/ctx", "vp/ctx ", "vp/ctx\n", "\tvp/ctx"])
     c["bp_metadata"] = None if r.random() < 0.3 else tomlw.rnd_table(r, 0)
     c["bp_targets"] = r.randint(0, 2)
     # plan + store (build)
@@ -80,7 +82,7 @@ def materialise(lay, c):
     vp.rmtree(lay.root)
     lay.create()
     with open(os.path.join(lay.bp, "buildpack.toml"), "w") as f:
-        d = {"api": "0.10", "buildpack": {"id": "vp/ctx", "version": "3.2.1"}}
+        d = {"api": "0.10", "buildpack": {"id": c.get("bp_id", "vp/ctx"), "version": "3.2.1"}}
         if c["bp_name"] is not None:
             d["buildpack"]["name"] = c["bp_name"]
         if c["bp_targets"]:
@@ -232,6 +234,8 @@ def run_case(base, c, sh):
             must_fail.append("platform env file %r has non-UTF-8 content" % bad_env_file[0])
         if c["bad_target"] and c["bad_target"] in c["targets"]:
             must_fail.append("%s is not valid UTF-8" % c["bad_target"])
+        if c.get("bp_id", "vp/ctx").strip() != c.get("bp_id", "vp/ctx"):
+            must_fail.append("buildpack.toml names the buildpack %r, which is not a buildpack id" % c["bp_id"])
         if c["phase"] == "build" and c["store"] == "no-metadata-key" and not must_fail:
             # an empty store.toml: the spec does not say whether [metadata] is required -> either outcome, but nothing in between
             if status != 0 and not os.path.exists(lay.dump):
@@ -290,7 +294,7 @@ def run_case(base, c, sh):
         d = got["descriptor"]
         want_md = None if c["bp_metadata"] is None else tomlw.to_py(c["bp_metadata"])
         got_md = None if d["metadata"] is None else tomlw.untagged(d["metadata"])
-        if d["id"] != "vp/ctx" or d["version"] != "3.2.1" or d["api"] != [0, 10] or d["name"] != c["bp_name"] or d["targets"] != c["bp_targets"] or \
+        if d["id"] != c.get("bp_id", "vp/ctx") or d["version"] != "3.2.1" or d["api"] != [0, 10] or d["name"] != c["bp_name"] or d["targets"] != c["bp_targets"] or \
                 (got_md is None) != (want_md is None) or (want_md is not None and not tomlw.same(got_md, want_md)):
             sh.violation("descriptor", "%s: descriptor in the context %r, buildpack.toml has name %r metadata %r" % (what, d, c["bp_name"], want_md), case)
             return
